@@ -222,10 +222,24 @@ def check_transfer_output(case, out, seam_log):
         if got != base:
             bad.append(("random-output", f"no surplus to transfer, yet output {fmt(got)} differs from the untouched ballots {fmt(base)}"))
         return bad
-    if len(draws) != 1:
-        bad.append(("random-draw", f"{len(draws)} draws observed at the random.sample seam of random_transfer, expected exactly one"))
+    ballot_draws = [e for e in draws if e["pop"] and all(isinstance(b, dict) and "r" in b for b in e["pop"])]
+    if len(ballot_draws) != 1:
+        if ballot_draws:
+            bad.append(("random-draw", f"{len(ballot_draws)} draws of ballots observed at the seam of random_transfer, expected exactly one"))
+            return bad
+        # the implementation does not draw ballots in a recognisable form (e.g. it samples indices): accept any output that is
+        # the untouched ballots plus SOME sub-collection of the pile of the right size, provided a draw was made at all whenever
+        # the choice was a real one (uniformity is then left to the F arm)
+        cnt = {}
+        for nr in pile:
+            cnt[nr] = cnt.get(nr, 0) + 1
+        moved = {r: got.get(r, Fraction(0)) - base.get(r, Fraction(0)) for r in set(got) | set(base)}
+        if any(v < 0 or v.denominator != 1 or v > cnt.get(r, 0) for r, v in moved.items()) or sum(moved.values(), Fraction(0)) != k:
+            bad.append(("random-output", f"output {fmt(got)} is not the untouched ballots {fmt(base)} plus {k} of the winner's transferable ballots"))
+        elif 0 < k < len(pile) and len(cnt) >= 2 and not any(e["nt"] for e in seam_log):
+            bad.append(("random-draw", "the surplus ballots were picked without any random draw although the choice was a real one"))
         return bad
-    d = draws[0]
+    d = ballot_draws[0]
     pop = sorted(tuple(tuple(g) for g in b["r"]) for b in d["pop"])
     if pop != sorted(pile):
         bad.append(("random-population", f"draw population has {len(pop)} unit ballots {pop[:6]}.. but the winner's transferable unit ballots are {len(pile)}: {sorted(pile)[:6]}.."))
@@ -294,11 +308,25 @@ def ledger(e, kind, seam_log):
                     if rk and rk[0] not in winners:
                         if [c for c in rk if c not in winners]:
                             kept += wt
+                opaque = False
                 for en in seam_log:
                     if en["kind"] == "sample" and en["site"].endswith("random_transfer") and en["ctx"] and en["ctx"][1] == r and en["ctx"][2] and en["ctx"][0] == "STV":
+                        if en["out"] and not all(isinstance(b, dict) and "r" in b for b in en["out"]):
+                            opaque = True  # the implementation draws indices or the like: the moved ballots are not visible here
+                            continue
                         for b in en["out"]:
                             if [c for g in b["r"] for c in g if c not in winners]:
                                 moved += 1
+                if opaque:
+                    # bounds only: untouched ballots stay, at most the capped surplus of each winner moves on
+                    cap = Fraction(0)
+                    for w in winners:
+                        pile_w = sum((wt for rk, wt in rm.items() if rk and rk[0] == w and len(rk) > 1), Fraction(0))
+                        cap += min(t[w] - q, pile_w)
+                    if not (kept <= W1 <= kept + cap) or (W1 - kept).denominator != 1:
+                        bad.append(("ledger", f"round {r} (elected {winners}): weight {W0} -> {W1}, expected between {kept} (untouched ballots) and {kept + cap} (plus the capped surplus)"))
+                    prevW = W1
+                    continue
                 exp = kept + moved
                 # the drop must be at least the threshold per winner
                 if W0 - exp < q * len(winners):
